@@ -195,6 +195,14 @@ def build(tier, seed):
             for t1 in ms:
                 grids.append(make_case(ems, [t0, t1], 2, [0, 1], seed,
                                        posterior=(len(t0) + len(t1) == 3)))
+    if tier == 'quick':
+        # k = 3: every error-model assignment on three collision-forcing grid
+        # triples (more than two outputs exercise the accumulated offsets)
+        triples = [[ms[4], ms[1], ms[6]], [ms[0], ms[8], ms[3]],
+                   [ms[7], ms[7], ms[2]]]
+        for ems in itertools.product(codes, repeat=3):
+            for ts in triples:
+                grids.append(make_case(ems, ts, 3, [0, 1, 2], seed))
     if tier == 'thorough':
         ms3 = multisets(lattice, 2)
         for ems in itertools.product(codes, repeat=3):
